@@ -1,6 +1,7 @@
 package store
 
 import (
+	"encoding/binary"
 	"fmt"
 	"github.com/LemoFoundationLtd/lemochain-core/common"
 	"github.com/LemoFoundationLtd/lemochain-core/common/log"
@@ -216,10 +217,38 @@ func (queue *FileQueue) scanFile(filePath string, offset int64) (int64, error) {
 		}
 
 		length := FileUtilsAlign(uint32(RecordHeadLength) + uint32(head.Len))
+		if head.Flg == batchMarkFlag {
+			// the records of the batch follow. Replay them only if all of them are there
+			if !queue.isBatchComplete(file, queue.Offset+int64(length), body.Val, fileSize) {
+				log.Warnf("the last batch in %s is incomplete, ignore it. offset: %d", filePath, queue.Offset)
+				return queue.Offset, ErrEOF
+			}
+			queue.Offset += int64(length)
+			continue
+		}
 		queue.deliver(head.Flg, body.Key, body.Val)
 		queue.Offset += int64(length)
 		log.Debugf("load file progress: %d/%d", queue.Offset, fileSize)
 	}
+}
+
+// isBatchComplete reads the records announced by a batch mark without replaying them
+func (queue *FileQueue) isBatchComplete(file *os.File, start int64, markVal []byte, fileSize int64) bool {
+	if len(markVal) != 8 {
+		return false
+	}
+	end := start + int64(binary.LittleEndian.Uint64(markVal))
+	if end < start || end > fileSize {
+		return false
+	}
+	for offset := start; offset < end; {
+		head, _, err := FileUtilsRead(file, offset)
+		if err != nil || head == nil {
+			return false
+		}
+		offset += int64(FileUtilsAlign(uint32(RecordHeadLength) + uint32(head.Len)))
+	}
+	return true
 }
 
 func (queue *FileQueue) encodeBatchItems(items []*BatchItem) ([][]byte, error) {
@@ -300,6 +329,17 @@ func (queue *FileQueue) Put(flag uint32, key []byte, val []byte) error {
 	}
 }
 
+// batchMarkFlag marks a record which is not data but the announcement of a batch: its value holds the total length of the
+// records that follow. A batch (a stable block with its accounts and height index) must be replayed as a whole or not at
+// all; if the process dies in the middle of the write, scanFile drops the incomplete batch instead of replaying a part of it.
+const batchMarkFlag = uint32(0xfffffff0)
+
+func encodeBatchMark(totalLen int) ([]byte, error) {
+	val := make([]byte, 8)
+	binary.LittleEndian.PutUint64(val, uint64(totalLen))
+	return FileUtilsEncode(batchMarkFlag, []byte("batch"), val)
+}
+
 func (queue *FileQueue) PutBatch(items []*BatchItem) error {
 	tmpBuf, err := queue.encodeBatchItems(items)
 	if err != nil {
@@ -311,12 +351,17 @@ func (queue *FileQueue) PutBatch(items []*BatchItem) error {
 
 	path := queue.path()
 	totalBuf := queue.mergeBatchItems(tmpBuf)
+	markBuf, err := encodeBatchMark(len(totalBuf))
+	if err != nil {
+		return err
+	}
 	queue.emptyFile(path)
-	_, err = FileUtilsFlush(path, queue.Offset, totalBuf)
+	_, err = FileUtilsFlush(path, queue.Offset, append(markBuf, totalBuf...))
 	if err != nil {
 		return err
 	}
 
+	queue.Offset += int64(len(markBuf))
 	queue.deliverBatch(tmpBuf, items)
 	return nil
 }
